@@ -39,7 +39,7 @@ pub fn run_case(case: &Case, out: &mut String) {
             return;
         }
         Ok(Err(e)) => {
-            let msg = format!("{e}").replace('\n', " ");
+            let msg = e.help().map(|h| h.to_string()).unwrap_or_else(|| format!("{e}")).replace('\n', " ");
             writeln!(out, "PARSE-ERR {}", msg.chars().take(100).collect::<String>()).unwrap();
             return;
         }
@@ -51,6 +51,15 @@ pub fn run_case(case: &Case, out: &mut String) {
     out.push_str("DUMP-END\n");
     writeln!(out, "H {}", case.hist.join(" ")).unwrap();
     out.push_str("TRACE-BEGIN\n");
+    {
+        // flush what we have: if the history aborts the process (stack overflow) the dump survives
+        use std::io::Write as _;
+        let stdout = std::io::stdout();
+        let mut lk = stdout.lock();
+        lk.write_all(out.as_bytes()).unwrap();
+        lk.flush().unwrap();
+        out.clear();
+    }
     let mut tick: u64 = 0;
     let mut last_keys: Vec<u16> = vec![];
     let res = std::panic::catch_unwind(std::panic::AssertUnwindSafe(|| {
